@@ -251,13 +251,14 @@ static int operand_tok(struct instr *instr_buffer, char *opds, int opd_pos) {
   instr_buffer->opd[opd_pos].type = get_operand_type(all_opd);
   // a size keyword in front of an immediate that follows a register operand
   // (nasm: `add rax, byte 5`) hints at the width of the immediate only: the
-  // operand size is that of the register. (Behind a memory operand alone it
-  // sizes that operand: `mov [rax], byte 5`.)
-  bool sized_by_reg = false;
+  // operand size is that of the register. (Behind a memory operand without a
+  // keyword of its own it sizes that operand: `mov [rax], byte 5`.)
+  bool sized = before.is_byte || before.is_word || before.is_dword ||
+               before.is_qword; // an earlier operand carries a size keyword
   for (int k = 0; k < opd_pos; k++)
     if (instr_buffer->opd[k].type != 'm')
-      sized_by_reg = true;
-  if (instr_buffer->opd[opd_pos].type == 'i' && sized_by_reg) {
+      sized = true;
+  if (instr_buffer->opd[opd_pos].type == 'i' && sized) {
     instr_buffer->keyword.is_byte = before.is_byte;
     instr_buffer->keyword.is_word = before.is_word;
     instr_buffer->keyword.is_dword = before.is_dword;
